@@ -430,7 +430,8 @@ def run(repo='/repo', tier='quick'):
     res.floor('C07.i', 'response body states that handle closure', nci, 2)
     res.assumptions += ['zlib and the LZMA SDK write at most avail_out bytes into the output buffer', 'fidelity (decompressed bytes == payload) is not decided']
     from . import coupdate
-    coupdate.run(db, res, 'C07.k', [('z_stream_s', 'next_out', 'avail_out', 4, 'the output window of zlib is reset as a (pointer, size) pair'), ('z_stream_s', 'avail_out', 'next_out', 4, 'the output window of zlib is reset as a (pointer, size) pair')],
+    coupdate.run(db, res, 'C07.k', [('z_stream_s', 'next_out', 'avail_out', 4, 'the output window of zlib is reset as a (pointer, size) pair'), ('z_stream_s', 'avail_out', 'next_out', 4, 'the output window of zlib is reset as a (pointer, size) pair'),
+                                     ('z_stream_s', 'next_in', 'avail_in', 3, 'the input window of zlib is set as a (pointer, size) pair'), ('z_stream_s', 'avail_in', 'next_in', 3, 'the input window of zlib is set as a (pointer, size) pair')],
                   'fields that change together: the zlib output pointer and the space left behind it are always reset in the same step (a lone reset lets inflate write through a stale pointer or report a wrong amount of output)')
     return res
 
